@@ -1130,6 +1130,9 @@ func c09CssRunCases(c *Ctx, st *h.Stage, cases []c09CssCase) error {
 			st.Tag("second-pass=fixed-point")
 		} else if r.err2 == nil && r.crash2 == "" {
 			st.Tag("second-pass=differs")
+			if os.Getenv("C09CSS_DEBUG") == "3" && len(known) == 0 && len(k.src) < 120 {
+				fmt.Fprintf(os.Stderr, "NONIDEM %q => %q => %q | %s\n", k.src, r.out, r.out2, k.cfg())
+			}
 			if failed == "" && len(known) == 0 {
 				// the second pass must be a valid minification of the first output
 				c09CssSecond = append(c09CssSecond, c09CssCase{src: r.out, inline: k.inline, css2: k.css2, prec: k.prec, tag: "second-pass"})
